@@ -89,6 +89,18 @@ impl C04 {
         };
         let (gz, gs) = ndt_to_day(&got);
         let eligible_in = preds.eligible(c.day, c.settlement);
+        // the eligibility predicates the walk relies on mean what the combination rule says:
+        // checked, from the calendar's parts, on every date between the input and the result
+        for z in c.day.min(gz).max(c.day - 40)..=c.day.max(gz).min(c.day + 40) {
+            let (mb, ms) = c.cal.model_eligibility(z);
+            if bus(z) != mb || settle(z) != ms {
+                v.fail(
+                    "eligibility | is_bus_day / is_settlement differ from the definition by parts",
+                    format!("{}: is_bus_day {} (by parts {}), is_settlement {} (by parts {})", fmt_day(z), bus(z), mb, settle(z), ms),
+                );
+                return;
+            }
+        }
 
         // classification
         v.label(c.cal.kind());
@@ -217,7 +229,7 @@ impl Property for C04 {
     }
 
     fn rule(&self) -> String {
-        "random stage: (calendar, date, modifier, settlement flag) with calendars drawn as plain / combined (1-3 members, optional 0-2 settlement calendars, built-in members mixed in) / named strings, week masks with 1-7 working days, holidays as runs and singles within +-60 days of a base day weighted to month ends, year ends and Easter; sweep stage: every date of the window x 5 modifiers x 2 flags for the 14 built-in calendars and 6 typical combinations. Oracle: day-by-day walk over the object's own is_bus_day / is_settlement. Non-trivial: the input date is not eligible and the modifier is not Act; distinct = distinct (calendar, date, modifier, flag) tuples.".into()
+        "random stage: (calendar, date, modifier, settlement flag) with calendars drawn as plain / combined (1-3 members, optional 0-2 settlement calendars, built-in members mixed in) / named strings, week masks with 1-7 working days, holidays as runs and singles within +-60 days of a base day weighted to month ends, year ends and Easter; sweep stage: every date of the window x 5 modifiers x 2 flags for the 14 built-in calendars and 6 typical combinations. Oracle: day-by-day walk over the object's own is_bus_day / is_settlement, which are themselves compared, on every date between input and result, with the definition by parts (business day in every member; settlement day = business day in every settlement calendar). Non-trivial: the input date is not eligible and the modifier is not Act; distinct = distinct (calendar, date, modifier, flag) tuples.".into()
     }
 
     fn floors(&self, tier: Tier) -> Vec<Floor> {
@@ -233,7 +245,7 @@ impl Property for C04 {
 
     fn assumptions(&self) -> Vec<String> {
         vec![
-            "is_bus_day / is_settlement of the calendar object are taken as ground truth (their meaning is decided by C06/C07)".into(),
+            "is_bus_day of a plain calendar (a leaf: week mask + holiday list) is taken as ground truth for built-in parts (the tables are C07's subject); the combination rule is re-derived from the parts".into(),
             "dates are midnight timestamps, as every caller passes".into(),
             "holiday runs are at most 12 days long, so the nearest eligible day is never a year away (the code compares month numbers only)".into(),
         ]
